@@ -1,11 +1,12 @@
 """C16 - Every built-in function is callable under its specification name and arity."""
 from lib import driver as D
 
-MUTANTS = ["arityOffByOne", "acceptUnknown", "notImplementedYieldsValue", "probeMissing", "experimentalLeaks"]
-# process histories: each is one harness process running an epoch of all cases of a configuration per letter, so every
-# configuration is compiled fresh, after the other one, and after both
-ORDERS = ["DED", "EDE"]
-
+MUTANTS = ["arityOffByOne", "acceptUnknown", "notImplementedYieldsValue", "probeMissing", "experimentalLeaks", "customLeaks"]
+# process histories: each is one harness process running, per letter, an epoch of all cases of a configuration
+# (D default, E WithExperimentalFuncs, X WithExperimentalFuncs + AddFunction("zzCustom")), so that every configuration is
+# compiled fresh, after each of the others, and X also after X
+ORDERS = ["DEXED", "XXDE", "EDE"]
+CFG = {"D": "default", "E": "experimental", "X": "custom"}
 
 def run(ctx):
     binary = D.build_harness(ctx, "c16")
@@ -14,9 +15,10 @@ def run(ctx):
     mc = D.model_check(ctx, "C16_MC", "C16_mc.cfg")
     cases = mc.records
     names = {c["name"] for c in cases}
-    if len(cases) != len(names) * 5 * 2 or len(names) < 70:
-        raise D.Inconclusive("generator emitted %d cases for %d names (want names x 5 counts x 2 configurations)" % (len(cases), len(names)))
-    for m in MUTANTS:
+    if len(cases) != len(names) * 5 * 3 or len(names) < 70:
+        raise D.Inconclusive("generator emitted %d cases for %d names (want names x 5 counts x 3 configurations)" % (len(cases), len(names)))
+    # quick keeps to the twins of the acceptance rule and of history independence; thorough runs all six
+    for m in (MUTANTS if ctx.tier == "thorough" else ["arityOffByOne", "experimentalLeaks", "customLeaks"]):
         D.mutant_twin(ctx, "C16_MC", "C16_mut_%s.cfg" % m, m)
     D.write_ndjson(ctx.path("cases.ndjson"), cases)
     # direction A: every case (plus the names only the implementation's tables know) in the real code
@@ -35,14 +37,17 @@ def run(ctx):
     evals = [o for o in obs if o["kind"] == "eval"]
     impl_only = sorted({o["cs"]["name"] for o in accepts if o["cs"]["origin"] == "impl"})
     epochs = {(o["proc"], o["epoch"], o["cs"]["cfg"], tuple(o["hist"])) for o in accepts}
-    want_epochs = {("DED", 1, "default", ()), ("DED", 2, "experimental", ("default",)), ("DED", 3, "default", ("default", "experimental")),
-                   ("EDE", 1, "experimental", ()), ("EDE", 2, "default", ("experimental",)), ("EDE", 3, "experimental", ("experimental", "default"))}
+    want_epochs = {(o, i + 1, CFG[o[i]], tuple(CFG[x] for x in o[:i])) for o in ORDERS for i in range(len(o))}
     if epochs != want_epochs:
         raise D.Inconclusive("process histories not as planned: %s" % sorted(epochs))
-    if len(accepts) < 2 * 3 * len(cases) or len(probes) < 600 or len(evals) < 300:
+    if len(accepts) < 2 * 3 * len(cases) or len(probes) < 1200 or len(evals) < 600:
         raise D.Inconclusive("dead driver: %d accept, %d eval, %d probe records" % (len(accepts), len(evals), len(probes)))
-    if sum(1 for o in probes if o["out"]["k"] == "ok") < 450:
-        raise D.Inconclusive("dead driver: fewer than 450 probes evaluated to a value")
+    # guards count records that exist, not outcomes that a defect of the tree under test could change (only a loose floor on values)
+    if sum(1 for o in probes if o["out"]["k"] == "ok") < 300:
+        raise D.Inconclusive("dead driver: fewer than 300 probes evaluated to a value")
+    custom = [o for o in probes if o["cs"]["name"] == "zzCustom"]
+    if len([o for o in custom if o["cs"]["cfg"] == "custom"]) != sum(o.count("X") for o in ORDERS):      # one probe in every X epoch
+        raise D.Inconclusive("dead driver: the custom function was probed in %d epochs" % len(custom))
     if ctx.tier == "thorough":
         corrupt_probe(ctx, obs)
     by_id = {o["id"]: o for o in obs}
@@ -52,8 +57,9 @@ def run(ctx):
     step = max(1, len(obs) // 5)
     return D.finish(ctx, verdicts, by_id, evaluations=len(accepts) + len(evals) + len(probes),
                     rule="exhaustive: every name of the N1 function list (FPFunctions) and every name of the implementation's base and experimental "
-                         "tables x argument counts 0..4 x {default, WithExperimentalFuncs}, each configuration compiled fresh, after the other one and after both "
-                         "within one process (histories D,E,D and E,D,E; the table read through funcs.Clone() must stay what it was at process start): Compile vs the implementation's table, the table's bounds vs "
+                         "tables and the custom name zzCustom x argument counts 0..4 x {default, WithExperimentalFuncs, WithExperimentalFuncs + AddFunction(zzCustom)}, "
+                         "each configuration compiled fresh, after each other one, and the custom one after itself, within one process "
+                         "(histories D,E,X,E,D / X,X,D,E / E,D,E; the table read through funcs.Clone() must stay what it was at process start): Compile vs the implementation's table, the table's bounds vs "
                          "the specification's counts, every accepted call evaluated (no arity complaint; not-implemented names never a value), and "
                          "every probe of every callable (name, count) against the value stated in the table; distinct = (record kind, name, count, "
                          "in table, outcome kind)",
